@@ -71,3 +71,15 @@ fn halfspace_clip_spec() {
         assert!(c == -1.);
     }
 }
+
+/// C05.b on one axis (the other components are exact zeros): bit-precise, any finite n_x, p_x with |.| <= 1e150
+#[kani::proof]
+fn halfspace_new_errb_positive_axis() {
+    let nx: f64 = kani::any();
+    let px: f64 = kani::any();
+    kani::assume(nx.is_finite() && px.is_finite() && nx.abs() <= BIG && px.abs() <= BIG);
+    let h = HalfSpace::new(DVec3::new(nx, 0., 0.), DVec3::new(px, 0., 0.), None, None);
+    assert!(h.vh_errb() >= 1e-13);
+    assert!(h.vh_errb().is_finite());
+}
+
